@@ -376,7 +376,13 @@ def run_check(prop: str, tier: str, verif_seed: int, budget_s: float | None = No
         "wall_s": round(wall, 2),
         "violations": len(reported),
     }
-    with open(os.path.join(VERIF, "evidence", f"{prop}.json"), "w") as f:
+    # Evidence describes the tree under /repo. Trial runs against a scratch copy (VERIF_REPO: mutants, seeded changes) must
+    # not overwrite it.
+    ev_path = os.path.join(VERIF, "evidence", f"{prop}.json")
+    if os.environ.get("VERIF_REPO"):
+        ev_path = os.path.join(work, f"evidence-{prop}.scratch.json")
+        evidence["coverage"]["tree_under_test"] = os.environ["VERIF_REPO"]
+    with open(ev_path, "w") as f:
         json.dump(evidence, f, indent=1, default=str)
 
     for k, v in sorted(merged["known"].items()):
